@@ -459,6 +459,13 @@ var propC19 = &Prop[CLICase]{
 			// one file in five: every comment consists of byte pairs that are shaped like UTF-8 sequences without
 			// being UTF-8 (half-width katakana pairs in Shift_JIS): the decision between the two encodings is made
 			// on the whole file
+			// one file in six: every line carries a long comment of half-width katakana (one byte each in Shift_JIS,
+			// three in UTF-8: the decoded text is far longer than the file)
+			if rapid.IntRange(0, 5).Draw(t, "dense") == 0 {
+				for i := range coms {
+					coms[i] = strings.Repeat("ｱｲｳｴｵｶｷｸｹｺｻｼｽｾｿﾀﾁﾂﾃﾄ", rapid.IntRange(1, 6).Draw(t, "densek"))
+				}
+			}
 			shaped := rapid.IntRange(0, 4).Draw(t, "shapedonly") == 0
 			if shaped && enc == "sjis" {
 				for i := range coms {
